@@ -3016,6 +3016,19 @@ REF_FCN static REF_STATUS ref_part_scalar_solb(REF_NODE ref_node, REF_INT *ldim,
       if (1 == type) (*ldim) += 1;
       if (2 == type) (*ldim) += dim;
     }
+    {
+      REF_FILEPOS data_position, end_position;
+      data_position = ftello(file);
+      REIS(0, fseeko(file, 0, SEEK_END), "fseeko END failed");
+      end_position = ftello(file);
+      REIS(0, fseeko(file, data_position, SEEK_SET), "fseeko data failed");
+      RAS(0 <= nnode && nnode <= (REF_LONG)REF_INT_MAX,
+          "vertex count out of range");
+      RAS(0 == (*ldim) ||
+              nnode <= (REF_LONG)((end_position - data_position) / 8) /
+                           (REF_LONG)(*ldim),
+          "file too short for declared vertex count");
+    }
   }
   RSS(ref_mpi_bcast(ref_node_mpi(ref_node), &version, 1, REF_INT_TYPE),
       "bcast version");
